@@ -62,10 +62,13 @@ func caseLines(s scn, ro *runOut) []string {
 // code gets from its caller / environment. The driver checks that the recorded run is a path of that program
 // and says how the program returns; the executor answers with how the real call returned.
 func progLine(s scn) string {
-	tmpdir := map[string]string{"same": "R/tmp", "explicit": "R/tmp", "cross": "X", "bad": "R/missing"}[s.TmpMode]
+	tmpdir := map[string]string{"same": "R/tmp", "explicit": "R/tmp", "explicit-cross": "R/tmp", "cross": "X", "bad": "R/missing"}[s.TmpMode]
 	optdir := "-"
 	if s.TmpMode == "explicit" {
 		optdir = "R/tmp2"
+	}
+	if s.TmpMode == "explicit-cross" {
+		optdir = "X"
 	}
 	if s.Pre > 0 && s.Writer == "replace-atomic" {
 		return "" // the mode comes from whatever the interrupted earlier run left at the destination
@@ -74,10 +77,7 @@ func progLine(s scn) string {
 	case "rio-writefile":
 		return fmt.Sprintf("prog writefile tmpdir=%s mode=%s", tmpdir, s.Perm)
 	case "fstree-put":
-		if s.Var == "nested" {
-			return "" // first attempt fails, MkdirAll, second attempt: not modelled as a program
-		}
-		return fmt.Sprintf("prog writefile tmpdir=%s mode=644", tmpdir)
+		return fmt.Sprintf("prog fstreeput tmpdir=%s mode=644", tmpdir)
 	case "rio-symlink":
 		return "prog symlink target=new-target mode=0"
 	case "create-atomic":
